@@ -253,8 +253,122 @@ let hxr a =
       ^ "||" ^ String.concat "," (List.map text_of t.t_keys)
       ^ "||" ^ String.concat ";" (List.map (fun r -> String.concat ":" (List.map cell r)) t.t_rows))
 
+(* ---- `vb`: the VCF <-> BCF bridge (NV.Bcf.Bridge with NV.Vcf.Line); parsing / printing of records
+   in the format of C09's `line` kind ---- *)
+let num_of s = match s with
+  | "A" | "R" | "G" | "." -> NOther
+  | _ -> NCount (n_of_int (int_of_string s))
+let ty_of s = match s with
+  | "I" -> TInteger | "F" -> TFloat | "B" -> TFlag | "C" -> TCharacter | "S" -> TString
+  | _ -> failwith "type"
+let items s f = if s = "" then [] else List.map (fun t -> if t = "." then None else Some (f t)) (split_on ',' s)
+let sub s k = String.sub s k (String.length s - k)
+let starts s p = String.length s >= String.length p && String.sub s 0 (String.length p) = p
+let parse_vgt r =
+  let n = String.length r in
+  let rec go i acc =
+    if i >= n then List.rev acc else begin
+      let ph = r.[i] = '|' in
+      let j = ref (i + 1) in
+      while !j < n && r.[!j] <> '|' && r.[!j] <> '/' do incr j done;
+      let t = String.sub r (i + 1) (!j - i - 1) in
+      go !j (((if t = "." then None else Some (n_of_dec t)), ph) :: acc)
+    end in
+  go 0 []
+let value_of (s : string) : value option =
+  if s = "M" then None else Some (
+    if s = "B" then VFlag
+    else if starts s "AI" then VIntArr (items (sub s 2) z_of_dec)
+    else if starts s "AF" then VFloatArr (items (sub s 2) n_of_dec)
+    else if starts s "AC" then VCharArr (items (sub s 2) (fun t -> n_of_int (int_of_string t)))
+    else if starts s "AS" then VStrArr (items (sub s 2) bytes_of_hex)
+    else if starts s "I" then VInteger (z_of_dec (sub s 1))
+    else if starts s "F" then VFloat (n_of_dec (sub s 1))
+    else if starts s "C" then VCharacter (n_of_int (int_of_string (sub s 1)))
+    else if starts s "S" then VString (bytes_of_hex (sub s 1))
+    else if starts s "G" then VGenotype (parse_vgt (sub s 1))
+    else failwith "spec")
+let pitems l f = String.concat "," (List.map (fun o -> match o with None -> "." | Some x -> f x) l)
+let spec (v : value option) : string =
+  match v with
+  | None -> "M"
+  | Some VFlag -> "B"
+  | Some (VInteger z) -> "I" ^ dec_of_z z
+  | Some (VFloat b) -> "F" ^ dec_of_n b
+  | Some (VCharacter c) -> "C" ^ dec_of_n c
+  | Some (VString s) -> "S" ^ hex_of_bytes s
+  | Some (VIntArr l) -> "AI" ^ pitems l dec_of_z
+  | Some (VFloatArr l) -> "AF" ^ pitems l dec_of_n
+  | Some (VCharArr l) -> "AC" ^ pitems l dec_of_n
+  | Some (VStrArr l) -> "AS" ^ pitems l hex_of_bytes
+  | Some (VGenotype g) ->
+      "G" ^ String.concat "" (List.map (fun (p, ph) ->
+        (if ph then "|" else "/") ^ (match p with None -> "." | Some n -> dec_of_n n)) g)
+let specs vs = if vs = [] then "_" else String.concat ";" (List.map spec vs)
+let ftab (s : string) =
+  if s = "-" then [] else
+  List.map (fun p -> match split_on ':' p with
+    | [b; h; p] -> (n_of_dec b, (bytes_of_hex h, n_of_dec p)) | _ -> failwith "ftab") (split_on ',' s)
+let fmt_of tab b = try fst (List.assoc b tab) with Not_found -> ascii "?"
+let prs_of tab t = try Some (snd (snd (List.find (fun (_, (x, _)) -> x = t) tab))) with Not_found -> None
+let lst_of (s : string) : n list list =
+  if s = "~" then [] else List.map bytes_of_hex (split_on ';' s)
+let lst_str (l : n list list) = if l = [] then "~" else String.concat ";" (List.map hex_of_bytes l)
+let kv_of (s : string) =
+  match String.index_opt s '=' with
+  | Some i -> (bytes_of_hex (String.sub s 0 i), value_of (sub s (i + 1)))
+  | None -> failwith "kv"
+let rec_of (s : string) : vrec =
+  match split_on '&' s with
+  | [c; p; ids; rf; alts; q; fl; info; keys; rows] ->
+      { r_chrom = bytes_of_hex c; r_pos = n_of_dec p; r_ids = lst_of ids; r_ref = bytes_of_hex rf;
+        r_alts = lst_of alts; r_qual = (if q = "." then None else Some (n_of_dec q));
+        r_filters = lst_of fl;
+        r_info = (if info = "~" then [] else List.map kv_of (split_on ';' info));
+        r_keys = lst_of keys;
+        r_samples = (if rows = "~" then [] else
+          List.map (fun row -> if row = "_" then [] else List.map value_of (split_on ';' row)) (split_on '!' rows)) }
+  | _ -> failwith "rec"
+let rec_str (r : vrec) : string =
+  String.concat "&" [
+    hex_of_bytes r.r_chrom; dec_of_n r.r_pos; lst_str r.r_ids; hex_of_bytes r.r_ref; lst_str r.r_alts;
+    (match r.r_qual with None -> "." | Some b -> dec_of_n b); lst_str r.r_filters;
+    (if r.r_info = [] then "~" else String.concat ";" (List.map (fun (k, v) -> hex_of_bytes k ^ "=" ^ spec v) r.r_info));
+    lst_str r.r_keys;
+    (if r.r_samples = [] then "~" else String.concat "!" (List.map specs r.r_samples)) ]
+
+let vb a =
+  let idx i = if i = "-" then None else Some (nat_of_int (int_of_string i)) in
+  let defs s = if s = "-" then [] else
+    List.map (fun d -> match split_on '/' d with [k; n; t; i] -> (k, n, t, i) | _ -> failwith "def") (split_on ',' s) in
+  let pairs s = if s = "-" then [] else
+    List.map (fun d -> match split_on '/' d with [k; i] -> (ascii k, idx i) | _ -> failwith "pair") (split_on ',' s) in
+  let infos = defs a.(1) and fmts = defs a.(3) in
+  let line_of (k, _, _, i) = (ascii k, idx i) in
+  let lines = List.map line_of infos @ pairs a.(2) @ List.map line_of fmts in
+  match build_strings lines, build_contigs (pairs a.(4)) with
+  | Some strings, Some contigs ->
+    let hd (k, n, t, _) = (ascii k, (num_of n, ty_of t)) in
+    let h = { h_v44 = (a.(0) = "4.4" || a.(0) = "4.5"); h_infos = List.map hd infos; h_formats = List.map hd fmts;
+              h_nsamples = nat_of_int (int_of_string a.(5)) } in
+    let r = rec_of a.(6) in
+    let tab = ftab a.(7) in
+    let w = bcf_write strings contigs h (z_of_dec a.(8)) r in
+    let (wb, wh) = wres w in
+    let back = (match wb with
+      | None -> None
+      | Some bs -> (match bcf_read strings contigs h bs with ROk x -> Some x | _ -> None)) in
+    let t = write_line (fmt_of tab) h r in
+    let vback = (match t with None -> None | Some t -> read_eager_text (prs_of tab) h (t @ [n_of_int 10])) in
+    let show o = match o with None -> "Err" | Some x -> rec_str x in
+    let showc o = match o with None -> "-" | Some x -> rec_str (content h.h_v44 x) in
+    Some (String.concat "|" [wh; show back; (match t with None -> "WErr" | Some t -> hex_of_bytes t); show vback;
+                             showc back; showc vback; (if bcf_special r then "special" else "plain")])
+  | _ -> Some "HeaderErr"
+
 let handle kind a =
   match kind with
+  | "vb" -> vb a
   | "hd" -> hd a
   | "sm" -> let d = sm_both (sm_lines a.(0)) (sm_lines a.(1)) in Some ("W=" ^ d ^ "|R=" ^ d)
   | "blk" -> blk a
